@@ -1,8 +1,82 @@
-(* C01 — non-vacuity examples *)
-From Coq Require Import ZArith List.
+(* C01 — non-vacuity examples for the hypotheses of Props.v, and the unsorted-directory witness *)
+From Coq Require Import ZArith List Bool Lia.
 From FV Require Import Lib.RustInt C01.Model C01.Proofs.
 Import ListNotations.
 Open Scope Z_scope.
 
-Example read_at_ok : read_at 2 [1; 2; 3] 1 = Ok 515.
+Lemma small_valid d : forallb (fun b => (0 <=? b) && (b <? 256)) d = true -> blen d <= 1000 -> valid d.
+Proof.
+  intros H L. split; [|rewrite isize_max_val; lia].
+  apply Forall_forall. intros x Hx. rewrite forallb_forall in H. specialize (H x Hx).
+  apply andb_prop in H. destruct H as [H1 H2]. unfold is_byte. lia.
+Qed.
+
+(* a two-table TrueType font: 'AAAA' -> [44,48), 'BBBB' -> [48,50) *)
+Definition font2 : list Z :=
+  [0;1;0;0; 0;2; 0;0;0;0;0;0;
+   65;65;65;65; 0;0;0;0; 0;0;0;44; 0;0;0;4;
+   66;66;66;66; 0;0;0;0; 0;0;0;48; 0;0;0;2;
+   1;2;3;4; 9;8].
+Example font2_valid : valid font2.
+Proof. apply small_valid; [reflexivity|vm_compute; discriminate]. Qed.
+Example font2_opens : exists f, fontref_new font2 = Ok f /\
+  table_data f 1094795585 = Ok (Some [1;2;3;4]) /\ table_data f 1111638594 = Ok (Some [9;8]) /\
+  table_data f 1128481603 = Ok None.
+Proof. eexists. split; [reflexivity|]. repeat split; reflexivity. Qed.
+
+(* the same records in the opposite (unsorted) order: 'BBBB' is present but the search misses it;
+   'AAAA' is still found.  This is what c01_table_data_sound allows and c01_table_data_complete_sorted excludes *)
+Definition font2_unsorted : list Z :=
+  [0;1;0;0; 0;2; 0;0;0;0;0;0;
+   66;66;66;66; 0;0;0;0; 0;0;0;48; 0;0;0;2;
+   65;65;65;65; 0;0;0;0; 0;0;0;44; 0;0;0;4;
+   1;2;3;4; 9;8].
+Example unsorted_directory_misses : exists f, fontref_new font2_unsorted = Ok f /\
+  (exists recs r, td_table_records (fr_dir f) = Ok recs /\ nthz recs 0 = Some r /\ rec_tag r = 1111638594) /\
+  table_data f 1111638594 = Ok None /\ table_data f 1094795585 = Ok (Some [1;2;3;4]).
+Proof. eexists. split; [reflexivity|]. split; [eexists; eexists; repeat split; reflexivity|]. split; reflexivity. Qed.
+
+(* offset + length overflowing u32 range / out of bounds: None, not a panic *)
+Definition font_bad_len : list Z :=
+  [0;1;0;0; 0;1; 0;0;0;0;0;0;
+   65;65;65;65; 0;0;0;0; 255;255;255;255; 255;255;255;255].
+Example bad_len_is_none : exists f, fontref_new font_bad_len = Ok f /\ table_data f 1094795585 = Ok None.
+Proof. eexists. split; reflexivity. Qed.
+(* a truncated directory is rejected by finish (num_tables says 2, only one record present) *)
+Example truncated_directory_rejected : fontref_new (firstn 28 font2) = Err OutOfBounds.
 Proof. reflexivity. Qed.
+
+(* a cursor program satisfying the hypotheses of c01_cursor_monotone / c01_cursor_total, with a saturating step *)
+Example cursor_program :
+  let ops := [OpAdvance 4; OpRead 2; OpReadArray 2 2; OpPosition; OpAdvanceBy USIZE_MAX; OpPosition; OpRemainingBytes] in
+  Forall cop_wf ops /\
+  snd (crun ops (cursor0 font2)) = [Ok []; Ok [2]; Ok [0;0;0;0]; Ok [10]; Ok []; Err OutOfBounds; Ok [0]] /\
+  cpos (fst (crun ops (cursor0 font2))) = USIZE_MAX /\ c_finish (fst (crun ops (cursor0 font2))) = Err OutOfBounds.
+Proof. cbv zeta. split; [repeat constructor; cbn; rewrite ?usize_max_val; lia|]. repeat split; reflexivity. Qed.
+
+(* read_u32_var (IFT varint): 1..5 byte encodings *)
+Example u32_var_examples :
+  snd (c_read_u32_var (cursor0 [127])) = Ok 127 /\ snd (c_read_u32_var (cursor0 [129; 2])) = Ok 258 /\
+  snd (c_read_u32_var (cursor0 [240; 1; 2; 3; 4])) = Ok 16909060 /\ snd (c_read_u32_var (cursor0 [193; 2])) = Err OutOfBounds.
+Proof. repeat split; reflexivity. Qed.
+
+(* INDEX with two objects "ab" and "c" (off_size 1) *)
+Definition index1 : list Z := [0;2; 1; 1;3;4; 97;98;99].
+Example index1_valid : valid index1.
+Proof. apply small_valid; [reflexivity|vm_compute; discriminate]. Qed.
+Example index1_gets : exists x, index_read 2 index1 = Ok x /\ index_get x 0 = Ok [97;98] /\ index_get x 1 = Ok [99] /\
+  index_get x 2 = Err OutOfBounds /\ index_get x USIZE_MAX = Err OutOfBounds.
+Proof. eexists. split; [reflexivity|]. repeat split; reflexivity. Qed.
+Example index_zero_offset : exists x, index_read 2 [0;1; 1; 0;2; 97] = Ok x /\ index_get x 0 = Err ZeroOffsetInIndex.
+Proof. eexists. split; reflexivity. Qed.
+
+(* VarLenArray of Pascal strings: "ab", "", "c" *)
+Example varlen_pstrings :
+  varlen_iter (read_len_at_default 1) 8 [2;97;98; 0; 1;99] = ([[2;97;98]; [0]; [1;99]], true) /\
+  varlen_get (read_len_at_default 1) [2;97;98; 0; 1;99] 2 = Some [1;99] /\
+  varlen_get_fast (read_len_at_default 1) [2;97;98; 0; 1;99] USIZE_MAX = None.
+Proof. repeat split; reflexivity. Qed.
+(* ComputedArray with item_len 0 has no items; with item_len 4 over 9 bytes has 2 *)
+Example computed_examples : ca_len (computed_new 0 [1;2;3]) = 0 /\ ca_len (computed_new 4 [1;2;3;4;5;6;7;8;9]) = 2 /\
+  fst (computed_iter 10 (computed_new 4 [1;2;3;4;5;6;7;8;9]) 0) = [[1;2;3;4;5;6;7;8;9]; [5;6;7;8;9]].
+Proof. repeat split; reflexivity. Qed.
